@@ -14,6 +14,7 @@ import (
 	"regexp"
 	"sort"
 	"strings"
+	"sync"
 	"time"
 )
 
@@ -22,7 +23,7 @@ var verifRoot = "/verif"
 type PropConfig struct {
 	ID        string   `json:"id"`
 	Level     string   `json:"level"`
-	Functions []string `json:"functions"` // regexps over function keys; empty: functions whose contract mentions the id
+	Functions []string `json:"functions"`         // regexps over function keys; empty: functions whose contract mentions the id
 	Extra     []string `json:"extra_obligations"` // regexps over obligation names additionally attributed
 	Exclude   []string `json:"exclude_obligations"`
 	Trusted   []string `json:"trusted_base"`
@@ -64,6 +65,11 @@ func propsOfObligation(name string) []string {
 	if strings.HasPrefix(kind, "decreases.call") {
 		set["C16"] = true
 		set["C01"] = true
+	}
+	if strings.HasPrefix(kind, "pool.") {
+		set["C16"] = true
+		set["C04"] = true
+		delete(set, "C01")
 	}
 	var out []string
 	for k := range set {
@@ -154,17 +160,21 @@ func cmdCheck(args []string) int {
 }
 
 type PropResult struct {
-	Reports   []*FnReport
-	Obs       []*Obligation // attributed to the property
-	Covers    []*Obligation
-	Summ      []*obSummary
-	Lemmas    []*obSummary
-	Seed      int
-	Wall      float64
-	SolverSec float64
-	Broken    []string
-	Bounded   []map[string]any
+	Reports     []*FnReport
+	Obs         []*Obligation // attributed to the property
+	Covers      []*Obligation
+	Summ        []*obSummary
+	Lemmas      []*obSummary
+	Seed        int
+	Wall        float64
+	SolverSec   float64
+	Broken      []string
+	Bounded     []map[string]any
+	EngineFail  []engineFail
+	EngineNotes []string
 }
+
+type engineFail struct{ Fn, Why string }
 
 // targetFunctions: functions to execute for a property.
 func targetFunctions(p *Program, cfg *PropConfig) []string {
@@ -216,40 +226,63 @@ func runProperty(p *Program, cfg *PropConfig, tier string, verbose bool) *PropRe
 		opt = dischargeOpts{timeoutMs: 60000, workers: 16, all: true}
 	}
 	solveStart := time.Now()
-	for _, k := range keys {
-		fn := p.funcs[k]
-		rep := p.genObligations(fn, ExecMode{Safety: true, Functional: true, Overflow: true}, nil)
-		res.Reports = append(res.Reports, rep)
-		if rep.Panic != "" {
-			res.Broken = append(res.Broken, fmt.Sprintf("%s: engine panic: %s", k, truncate(rep.Panic, 300)))
-		}
-		if rep.Aborted != "" {
-			res.Broken = append(res.Broken, fmt.Sprintf("%s: %s", k, rep.Aborted))
-		}
-		var mine []*Obligation
-		for _, o := range rep.Obs {
-			if matchAny(cfg.Exclude, o.Name) {
-				continue
-			}
-			ps := propsOfObligation(o.Name)
-			take := matchAny(cfg.Extra, o.Name)
-			for _, x := range ps {
-				if x == cfg.ID {
-					take = true
+	type fnOut struct {
+		rep  *FnReport
+		mine []*Obligation
+	}
+	outs := make([]fnOut, len(keys))
+	var wg sync.WaitGroup
+	fsem := make(chan struct{}, 6)
+	for i, k := range keys {
+		i, k := i, k
+		wg.Add(1)
+		fsem <- struct{}{}
+		go func() {
+			defer wg.Done()
+			defer func() { <-fsem }()
+			fn := p.funcs[k]
+			rep := p.genObligations(fn, ExecMode{Safety: true, Functional: true, Overflow: true}, nil)
+			var mine []*Obligation
+			for _, o := range rep.Obs {
+				if matchAny(cfg.Exclude, o.Name) {
+					continue
+				}
+				ps := propsOfObligation(o.Name)
+				take := matchAny(cfg.Extra, o.Name)
+				for _, x := range ps {
+					if x == cfg.ID {
+						take = true
+					}
+				}
+				if take {
+					mine = append(mine, o)
 				}
 			}
-			if take {
-				mine = append(mine, o)
-			}
+			discharge(mine, opt)
+			// vacuity covers for every executed function
+			dischargeCovers(rep.Covers, dischargeOpts{timeoutMs: 3000, workers: 16})
+			outs[i] = fnOut{rep, mine}
+		}()
+	}
+	wg.Wait()
+	for i, k := range keys {
+		rep := outs[i].rep
+		res.Reports = append(res.Reports, rep)
+		if rep.Panic != "" {
+			res.EngineFail = append(res.EngineFail, engineFail{k, "engine could not model the function: " + truncate(rep.Panic, 400)})
 		}
-		discharge(mine, opt)
-		res.Obs = append(res.Obs, mine...)
-		// vacuity covers for every executed function
-		dischargeCovers(rep.Covers, dischargeOpts{timeoutMs: 3000, workers: 16})
+		if rep.Aborted != "" {
+			res.EngineFail = append(res.EngineFail, engineFail{k, "engine gave up: " + rep.Aborted})
+		}
+		res.Obs = append(res.Obs, outs[i].mine...)
 		res.Covers = append(res.Covers, rep.Covers...)
 		if verbose {
 			printReport(rep, false)
 		}
+	}
+	// program-level obligations (syntactic scans)
+	for _, o := range p.programObligations(cfg.ID) {
+		res.Obs = append(res.Obs, o)
 	}
 	// lemmas attributed to the property
 	res.Lemmas = p.proveLemmas(cfg.ID, opt)
@@ -266,6 +299,33 @@ func (res *PropResult) report(p *Program, cfg *PropConfig, tier string, writeBas
 		inBase[n] = true
 	}
 	all := append(append([]*obSummary(nil), res.Summ...), res.Lemmas...)
+	// a function the engine could not execute discharges nothing: every obligation of that
+	// function that was discharged on the unchanged tree is now undecided
+	var engineNotes []string
+	for _, ef := range res.EngineFail {
+		have := map[string]bool{}
+		for _, s := range all {
+			have[s.Name] = true
+		}
+		n := 0
+		for name := range inBase {
+			if strings.HasPrefix(name, ef.Fn+"#") {
+				n++
+				if have[name] {
+					for _, s := range all {
+						if s.Name == name {
+							s.Status = "undecided"
+							s.Desc += " [" + ef.Why + "]"
+						}
+					}
+				} else {
+					all = append(all, &obSummary{Name: name, Status: "undecided", Count: 1, Solver: map[string]int{}, Desc: ef.Why})
+				}
+			}
+		}
+		engineNotes = append(engineNotes, fmt.Sprintf("%s: %s (%d baseline obligations affected)", ef.Fn, ef.Why, n))
+	}
+	res.EngineNotes = engineNotes
 	violations := 0
 	var undecidedNew []string
 	var discharged []string
@@ -339,6 +399,9 @@ func (res *PropResult) report(p *Program, cfg *PropConfig, tier string, writeBas
 	}
 	fmt.Printf("govc check %s [%s]: %d obligations, %d discharged, %d violations, %d known findings, %d undecided-unclaimed, %.1fs\n",
 		cfg.ID, tier, len(all), len(discharged), violations, len(knownPrinted), len(undecidedNew), res.Wall)
+	for _, n := range res.EngineNotes {
+		fmt.Println("NOTE:", n)
+	}
 	if len(res.Broken) > 0 {
 		for _, b := range res.Broken {
 			fmt.Println("BROKEN:", b)
@@ -413,25 +476,26 @@ func writeEvidence(p *Program, cfg *PropConfig, tier string, res *PropResult, al
 		level = "proof"
 	}
 	cov := map[string]any{
-		"obligations":               len(all),
-		"discharged":                len(discharged),
-		"obligation_instances":      instances,
-		"checker_cmd":               fmt.Sprintf("/verif/bin/govc check %s -tier %s", cfg.ID, tier),
-		"trusted_base":              append([]string{"govc VC generator (/verif/govc)", "go/types + go/ssa v0.29.0 (NaiveForm)", "z3 4.8.12, z3 5.1.0, cvc5 1.0 (raced; disagreement = broken)"}, cfg.Trusted...),
-		"samples":                   samples,
-		"functions_executed":        len(res.Reports),
-		"functions_under_contract":  sortedKeys(fnSet),
-		"callee_contracts_used":     sortedKeys(usedCons),
-		"inlined_callees":           sortedKeys(inlined),
-		"discharged_by_backend":     backends,
-		"solver_and_generation_sec": res.SolverSec,
-		"undecided_never_claimed":   undecided,
-		"baseline_obligations_gone": missing,
-		"vacuous_cover_points":      vac,
+		"obligations":                    len(all),
+		"discharged":                     len(discharged),
+		"obligation_instances":           instances,
+		"checker_cmd":                    fmt.Sprintf("/verif/bin/govc check %s -tier %s", cfg.ID, tier),
+		"trusted_base":                   append([]string{"govc VC generator (/verif/govc)", "go/types + go/ssa v0.29.0 (NaiveForm)", "z3 4.8.12, z3 5.1.0, cvc5 1.0 (raced; disagreement = broken)"}, cfg.Trusted...),
+		"samples":                        samples,
+		"functions_executed":             len(res.Reports),
+		"functions_under_contract":       sortedKeys(fnSet),
+		"callee_contracts_used":          sortedKeys(usedCons),
+		"inlined_callees":                sortedKeys(inlined),
+		"discharged_by_backend":          backends,
+		"solver_and_generation_sec":      res.SolverSec,
+		"undecided_never_claimed":        undecided,
+		"baseline_obligations_gone":      missing,
+		"vacuous_cover_points":           vac,
 		"abstractions_and_out_of_subset": sortedKeys(notes),
-		"known_findings_printed":    knownPrinted,
-		"bounded":                   cfg.Bounded,
-		"explanation":               "each obligation is pathcondition ∧ ¬goal checked unsat by an SMT solver, per path of the real function's SSA, for all inputs and all loop iterations (loops are cut at invariants)",
+		"known_findings_printed":         knownPrinted,
+		"functions_not_modelled":         res.EngineNotes,
+		"bounded":                        cfg.Bounded,
+		"explanation":                    "each obligation is pathcondition ∧ ¬goal checked unsat by an SMT solver, per path of the real function's SSA, for all inputs and all loop iterations (loops are cut at invariants)",
 	}
 	if level != "proof" {
 		cov["evaluations"] = instances
